@@ -34,22 +34,38 @@ func (s *JSchemaObject) ObjectProperty(key string) (ischema.Node, bool) {
 
 func (s *JSchemaObject) ObjectFirstLevelProperties(ut map[string]*jschema.JSchema) map[string]ischema.Node {
 	m := make(map[string]ischema.Node, 5)
-	s.objectFirstLevelProperties(m, ut)
+	s.objectFirstLevelProperties(m, ut, map[string]struct{}{})
 	return m
 }
 
-func (s *JSchemaObject) objectFirstLevelProperties(m map[string]ischema.Node, ut map[string]*jschema.JSchema) {
-	s.appendPropertiesFromShortcut(m, ut)
+// objectFirstLevelProperties follows the user types named by the root. The
+// visited set holds the names already followed: a type may refer to itself
+// (TYPE @a  @a // {nullable: true}).
+func (s *JSchemaObject) objectFirstLevelProperties(
+	m map[string]ischema.Node,
+	ut map[string]*jschema.JSchema,
+	visited map[string]struct{},
+) {
+	s.appendPropertiesFromShortcut(m, ut, visited)
 	s.appendPropertiesFromObject(m)
 }
 
-func (s *JSchemaObject) appendPropertiesFromShortcut(m map[string]ischema.Node, ut map[string]*jschema.JSchema) {
+func (s *JSchemaObject) appendPropertiesFromShortcut(
+	m map[string]ischema.Node,
+	ut map[string]*jschema.JSchema,
+	visited map[string]struct{},
+) {
 	names := jschema.UserTypeNamesFromEachTypeConstraint(s.Inner.RootNode())
 
 	for _, name := range names {
+		if _, ok := visited[name]; ok {
+			continue
+		}
+		visited[name] = struct{}{}
+
 		if ss, ok := ut[name]; ok {
 			obj := JSchemaObject{JSchema: ss}
-			obj.objectFirstLevelProperties(m, ut)
+			obj.objectFirstLevelProperties(m, ut, visited)
 		}
 	}
 }
